@@ -49,6 +49,11 @@ EXPLANATION = "queue discipline vs recursive reference over symbolic object prog
 STUB_SRC = '''
 PROGRAMS = {}
 
+class Node:
+    """an abstract picklable object (identity-hashed)"""
+    def __init__(self, idx):
+        self.idx = idx
+
 class Pickler:
     def __init__(self, file, protocol=None, byref=None, fmode=None, recurse=None, **kw):
         if protocol is None:
@@ -65,7 +70,7 @@ class Pickler:
         for act in PROGRAMS[obj]:
             kind = act[0]
             if kind == 0:
-                self.write(("W", obj, act[1]))
+                self.write(("W", obj, act[2]))
             elif kind == 1:
                 self.save(act[1])
             else:
@@ -98,13 +103,14 @@ class File:
 PROG_STREAM = '''
 for o, prog in programs:
     PROGRAMS[o] = prog
+root = programs[0][0]
 f1 = File()
-Pickler(f1, protocol=proto).dump(0)
+Pickler(f1, protocol=proto).dump(root)
 ref = f1.tokens
 f2 = File()
 raised = None
 try:
-    nrpickler.dump(0, f2, protocol=proto)
+    nrpickler.dump(root, f2, protocol=proto)
 except Exception as exc:
     raised = type(exc).__name__
 got = f2.tokens
@@ -113,39 +119,45 @@ same = (raised is None) and (len(got) == len(ref)) and (got[1:-1] == ref[1:-1])
 
 PROG_DEPTH = '''
 def chain(n):
+    nodes = [Node(i) for i in range(n)]
     i = 0
     while i < n:
         if i + 1 < n:
-            PROGRAMS[i] = [(2, 0), (0, 7), (1, i + 1), (0, 8)]
+            PROGRAMS[nodes[i]] = [(2, None, 0), (0, None, 7), (1, nodes[i + 1], 0), (0, None, 8)]
         else:
-            PROGRAMS[i] = [(2, 0), (0, 7)]
+            PROGRAMS[nodes[i]] = [(2, None, 0), (0, None, 7)]
         i = i + 1
+    return nodes[0]
 
 depths = []
 for n in lengths:
     PROGRAMS.clear()
-    chain(n)
+    first = chain(n)
     f = File()
-    nrpickler.dump(0, f, protocol=4)
+    nrpickler.dump(first, f, protocol=4)
     depths.append(f.maxdepth)
 flat = True
 for d in depths:
     flat = flat and (d == depths[0])
 # the recursive base class, for contrast, does grow (sanity of the probe)
 PROGRAMS.clear()
-chain(2)
+first = chain(2)
 fa = File()
-Pickler(fa, protocol=4).dump(0)
+Pickler(fa, protocol=4).dump(first)
 PROGRAMS.clear()
-chain(6)
+first = chain(6)
 fb = File()
-Pickler(fb, protocol=4).dump(0)
+Pickler(fb, protocol=4).dump(first)
 probe_ok = fb.maxdepth > fa.maxdepth
 '''
 
 
+LEAF = b"leaf"
+
+
 def configs(tier):
-    out = [{"mode": "stream", "nobj": 2, "nact": 3}, {"mode": "stream", "nobj": 3, "nact": 2}]
+    out = [{"mode": "stream", "nobj": 2, "nact": 3}, {"mode": "stream", "nobj": 3, "nact": 2},
+           {"mode": "stream", "nobj": 2, "nact": 3, "leaf": True}]
     if tier != "quick":
         out.append({"mode": "stream", "nobj": 3, "nact": 3})
     out.append({"mode": "depth", "lengths": [2, 3, 5, 7] if tier == "quick" else [2, 3, 5, 7, 9]})
@@ -312,6 +324,13 @@ def scenario(B, p):
     if p["mode"] == "stream":
         nobj, nact = p["nobj"], p["nact"]
         env = B.with_fake_dill(STUB_SRC)
+        nodes = [B.label(B.run("x = Node(i)", dict(env, i=o))["x"], f"obj{o}") for o in range(nobj)]
+
+        def rank(x):
+            r = 0
+            for i, nd in enumerate(nodes):
+                r = B.ite(B.is_(x, nd), i, r)
+            return r
         programs = []
         for o in range(nobj):
             acts = []
@@ -319,13 +338,20 @@ def scenario(B, p):
             n = B.int(f"n{o}", 0, nact)
             for j in range(nact):
                 kind = B.int(f"k{o}_{j}", 0, 2)
-                arg = B.int(f"a{o}_{j}", 0, nobj - 1)
-                # well-founded programs: saving an object of index <= own needs an earlier memoize of oneself
-                earlier = B.or_(*[B.eq(k2, 2) for k2 in kinds]) if kinds else False
-                B.assume(B.implies(B.eq(kind, 1), B.or_(B.lt(o, arg), earlier)), "well-founded")
+                if p.get("leaf") and B.choice(f"leafchild{o}_{j}", 2) == 1:
+                    # the child is a shared scalar leaf (a bytes object: written, then memoised, as pickle does)
+                    child = LEAF
+                    B.assume(B.eq(kind, 1), "leaf child is saved")
+                else:
+                    child = B.ref(f"c{o}_{j}", nodes)
+                    # well-founded programs: saving an object of index <= own needs an earlier memoize of oneself
+                    earlier = B.or_(*[B.eq(k2, 2) for k2 in kinds]) if kinds else False
+                    B.assume(B.implies(B.eq(kind, 1), B.or_(B.lt(o, rank(child)), earlier)), "well-founded")
                 kinds.append(kind)
-                acts.append(B.mktuple([kind, arg]))
-            programs.append(B.mktuple([o, B.symlist(acts, n)]))
+                acts.append(B.mktuple([kind, child, B.int(f"w{o}_{j}", 0, 1)]))
+            programs.append(B.mktuple([nodes[o], B.symlist(acts, n)]))
+        if p.get("leaf"):
+            programs.append(B.mktuple([LEAF, B.mklist([B.mktuple([0, None, 5]), B.mktuple([2, None, 0])])]))
         env["programs"] = B.mklist(programs)
         env["proto"] = 2 + B.choice("proto", 4)
         out = B.run(PROG_STREAM, env)
